@@ -5,7 +5,7 @@
 //@ entry h_fmt_escapes
 //@ note W: complete over all 2^16 XMLCh values x the four escape modes x fIsXML11 in {false,true}; the list scan loop (at most kEscapeCount = 7 entries per row) is fully unwound with unwinding assertions
 //@ note the spec sets (spec/escape.h) are written from XML 1.0 2.3/2.4/2.11/3.3.3/4.6 and XML 1.1 2.2/2.11, not from XMLFormatter.hpp (whose comment tables are stale)
-//@ note NoEscapes: formatBuf never consults inEscapeList when actualEsc == NoEscapes (proved in unit fmt_formatbuf: obligation "NoEscapes: escape list not consulted"); at function level inEscapeList(NoEscapes, c) under XML 1.1 answers true for the control characters, which is harmless for that reason and stated below as "subset of the XML 1.1 controls"
+//@ note NoEscapes: formatBuf never consults inEscapeList when actualEsc == NoEscapes (proved in unit fmt_formatbuf: the precondition `escStyle != NoEscapes` of the inEscapeList contract is checked at formatBuf's call site); at function level inEscapeList(NoEscapes, c) under XML 1.1 answers true for the control characters, which is harmless for that reason and stated below as "subset of the XML 1.1 controls"
 #define VERIF_DEFINE_GHOSTS
 #include "verif_prelude.h"
 #include "escape.h"
